@@ -112,7 +112,7 @@ func H_C17_paths() {
 //gosym:reach present,absent
 func H_C17_commaOk() {
 	has := ndBool("has")
-	kind := ndChoice("kind", 3)
+	kind := ndChoice("kind", 6)
 	vars := make(VarMap)
 	switch kind {
 	case 0:
@@ -127,10 +127,28 @@ func H_C17_commaOk() {
 			m["k"] = &c17Node{}
 		}
 		vars.Set("m", m)
-	default:
+	case 2:
 		m := map[string]string{}
 		if has {
 			m["k"] = ndName("s", 1)
+		}
+		vars.Set("m", m)
+	case 3: // present key holding a nil interface
+		m := map[string]interface{}{}
+		if has {
+			m["k"] = nil
+		}
+		vars.Set("m", m)
+	case 4: // present key holding a nil pointer
+		m := map[string]*c17Node{}
+		if has {
+			m["k"] = nil
+		}
+		vars.Set("m", m)
+	default: // present key holding a nil slice
+		m := map[string][]int{}
+		if has {
+			m["k"] = nil
 		}
 		vars.Set("m", m)
 	}
